@@ -136,6 +136,7 @@ type Task struct {
 	op        string
 	spinEpoch uint64
 	qAdvance  bool
+	qLimit    int64 // with qAdvance: do not advance the clock beyond this (0 = no limit)
 	prio      int
 	blockSite uintptr
 }
@@ -424,7 +425,7 @@ func (s *Sim) loop(mainT *Task) {
 				continue
 			}
 			q := s.quiesceT
-			if q != nil && q.st == stQuiesce && (!q.qAdvance || len(s.timers) == 0) {
+			if q != nil && q.st == stQuiesce && (!q.qAdvance || len(s.timers) == 0 || (q.qLimit > 0 && s.timers[0].at > q.qLimit)) {
 				s.quiesceT = nil
 				s.resumeTask(q)
 				continue
@@ -900,6 +901,25 @@ func WaitQuiescent(advance bool) {
 	t.site = callerPC(1)
 	t.op = "quiesce"
 	t.qAdvance = advance
+	t.qLimit = 0
+	s.quiesceT = t
+	park(t, stQuiesce, nil, "quiescence")
+}
+
+// WaitQuiescentFor is WaitQuiescent(true) that lets at most d of virtual time pass: timers due
+// later stay armed (needed when something re-arms a timer for ever).
+//
+//go:norace
+func WaitQuiescentFor(dNanos int64) {
+	s := sim
+	if s == nil || s.cur == nil {
+		panic("simrt.WaitQuiescentFor outside a simulation")
+	}
+	t := s.cur
+	t.site = callerPC(1)
+	t.op = "quiesce"
+	t.qAdvance = true
+	t.qLimit = s.now + dNanos
 	s.quiesceT = t
 	park(t, stQuiesce, nil, "quiescence")
 }
